@@ -280,7 +280,8 @@ func (p *Packet) Bytes() []byte {
 		exp = -11 // precise to 10 ps
 		period := math.Pow10(-int(exp)) / ts.Rate
 		denom = 1
-		for ; period > 65535; period *= 0.5 {
+		// denom has 16 bits. Without the bound on it, a rate of zero (period = +Inf) never left this loop.
+		for ; period > 65535 && denom < 1<<15; period *= 0.5 {
 			denom *= 2
 		}
 		num = uint16(math.Round(period))
